@@ -111,6 +111,15 @@ def parseLens (toks : List String) : List (Nat Ã— Nat) Ã— List String :=
 
 def wbytes (c : Cfg) : Nat := c.W / 8
 
+/-- plain value list, or run-length encoded `value count value count â€¦` for the `rle` variant -/
+def expandArgs (variant : String) (args : List String) : List Nat :=
+  if variant == "rle" then
+    let rec go : List String â†’ List Nat â†’ List Nat
+      | v :: c :: rest, acc => go rest (List.replicate (nat! c) (nat! v) ++ acc)
+      | _, acc => acc.reverse
+    go args []
+  else args.map nat!
+
 def copySlot (st : St) (k : Nat) (args : List String) : St Ã— String :=
   match args with
   | [src] => (match getSlot st (nat! src) with
@@ -211,18 +220,18 @@ def handleMk (st : St) (k : Nat) (kindFull : String) (args : List String) : St Ã
       | _ => (st, "bad-op"))
     | _ => (st, "bad-op")
   | "qwt" =>
-    let vals := args.map nat!
+    let vals := expandArgs variant args
     mkResult st k (do let t â† QWTree.new c vals.toArray; pure (.qwt c t vals))
   | "hqwt" =>
     let (lens, rest) := parseLens args
-    let vals := rest.map nat!
+    let vals := expandArgs variant rest
     mkResult st k (do let t â† Huff.new c vals.toArray lens; pure (.hqwt c t vals lens))
   | "wt" =>
-    let vals := args.map nat!
+    let vals := expandArgs variant args
     mkResult st k (do let t â† BinWT.new c false vals.toArray []; pure (.wt c false t vals))
   | "hwt" =>
     let (lens, rest) := parseLens args
-    let vals := rest.map nat!
+    let vals := expandArgs variant rest
     mkResult st k (do let t â† BinWT.new c true vals.toArray lens; pure (.wt c true t vals lens))
   | _ => (st, "bad-op")
 
